@@ -22,6 +22,7 @@ type corpus struct {
 	Dropped map[string]string // program -> why it is not in the runner
 	CffOut  string
 	Runner  string
+	Decoys  int // programs first generated against an earlier version of their helper package
 }
 
 // scratchModG: the module of Engine G's corpus says go 1.22 (loop variables
@@ -89,8 +90,53 @@ func must(err error) {
 	}
 }
 
+// decoyRound: before the real generation, the programs whose functions live in
+// a helper package get a first generation against an earlier version of that
+// package - the same functions without their error results. The helper
+// package is then replaced by the real one and everything is generated again:
+// what runs afterwards must be generated from what is on disk now, although
+// the directive files themselves have not changed since the first round.
+func (c *corpus) decoyRound(cff string, mode string) int {
+	n := 0
+	for _, p := range c.Progs {
+		if p.Host != "" || !p.HasFeature("spell4") {
+			continue
+		}
+		q := cloneProg(p)
+		changed := false
+		for _, f := range q.AllFns() {
+			if f.Spell == prog.SpImport && f.Err {
+				f.Err = false
+				changed = true
+			}
+		}
+		if !changed {
+			continue
+		}
+		files := q.Files("scratch/" + progDir(p))
+		real, _ := os.ReadFile(filepath.Join(c.Dir, progDir(p), "ha", "ha.go"))
+		must(os.WriteFile(filepath.Join(c.Dir, progDir(p), "ha", "ha.go"), []byte(files["ha/ha.go"]), 0o644))
+		defer os.WriteFile(filepath.Join(c.Dir, progDir(p), "ha", "ha.go"), real, 0o644)
+		n++
+	}
+	if n > 0 {
+		c.runCff(cff, mode)
+	}
+	return n
+}
+
 // generate runs the cff binary over the corpus (mode: base, source-map).
 func (c *corpus) generate(cff string, mode string) {
+	c.Decoys = c.decoyRound(cff, mode)
+	c.CffOut = c.runCff(cff, mode)
+	for _, p := range c.Progs {
+		if _, err := os.Stat(filepath.Join(c.Dir, progDir(p), "p_gen.go")); err != nil {
+			c.Dropped[p.Name] = "cff wrote no output: " + grepLines(c.CffOut, p.Name+"/p.go", 3)
+		}
+	}
+}
+
+func (c *corpus) runCff(cff string, mode string) string {
 	var out strings.Builder
 	for _, sub := range []string{"plain", "auto"} {
 		if _, err := os.Stat(filepath.Join(c.Dir, sub)); err != nil {
@@ -107,12 +153,7 @@ func (c *corpus) generate(cff string, mode string) {
 			fmt.Fprintf(&out, "[cff exit: %v]\n", err)
 		}
 	}
-	c.CffOut = out.String()
-	for _, p := range c.Progs {
-		if _, err := os.Stat(filepath.Join(c.Dir, progDir(p), "p_gen.go")); err != nil {
-			c.Dropped[p.Name] = "cff wrote no output: " + grepLines(c.CffOut, p.Name+"/p.go", 3)
-		}
-	}
+	return out.String()
 }
 
 func grepLines(s, sub string, max int) string {
